@@ -174,8 +174,42 @@ def _tally(ctx, q, r):
     d[key] = d.get(key, 0) + 1
 
 
+def coef_missing(rng, n_cases):
+    """F-C02-2 stratum: a reaction whose COMPUTED stoichiometric coefficient names something that does not exist.  The
+    property asks for the missing-dependency error listing exactly those names and no numbers; the code checks only the
+    dependency-sorted components, so get_initial_conditions / get_args return numbers (KeyError only on the right-hand side)"""
+    out = []
+    for _ in range(n_cases):
+        n = rng.randint(1, 4)
+        reqs = [rng.sample([f"c{j}" for j in range(i)] + ["p", "x"], rng.randint(0, min(2, i + 2))) for i in range(n)]
+        kinds = [rng.choice("dr") for _ in range(n)]
+        if "r" not in kinds:
+            kinds[rng.randrange(n)] = "r"
+        order = list(range(n))
+        rng.shuffle(order)
+        content = mk_content(reqs, kinds, order)
+        name, r = rng.choice(content["rxns"])
+        miss = rng.sample(["zz", "yy"], rng.randint(1, 2))
+        args = miss + rng.sample(["p", "x"], rng.randint(0, 1))
+        rng.shuffle(args)
+        r["st"] = [["x", {"args": args, "e": sum_expr(len(args))}]]
+        out.append({"content": content, "queries": QUERIES, "decl_seed": rng.randrange(1 << 30),
+                    "shape": "coef_missing", "expect_missing": [[name, sorted(miss)]]})
+    return out
+
+
 def judge_case(ctx, case, R, M, S):
     if any(s == "inexact" for s in S):
+        return
+    if case.get("expect_missing"):
+        # what the property demands (the order-free oracle `Spec` follows the code's scope of the check instead)
+        want = {"err": ["MissingDependenciesError", case["expect_missing"]]}
+        ctx.count({k: case[k] for k in ("content", "queries")}, "coef_missing", True)
+        for i, q in enumerate(case["queries"]):
+            _tally(ctx, q, R[i])
+            sub = {"content": case["content"], "queries": [q], "decl_seed": case.get("decl_seed", 0),
+                   "expect_missing": case["expect_missing"]}
+            ctx.judge(sub, R[i], want, None if M is None else M[i], finding="F-C02-2", what=f"query {q[0]} (computed coefficient names a missing name)")
         return
     nontrivial = any(f["args"] for _, f in case["content"]["derived"]) or len(case["content"]["pars"]) > 1 \
         or any(r["args"] for _, r in case["content"]["rxns"]) or bool(case["content"]["surs"])
@@ -245,6 +279,7 @@ def run(ctx):
     run_batch(ctx, sampled(ctx.rng, ctx.n(1500, 40000)))
     run_batch(ctx, rewired(ctx.rng, ctx.n(600, 10000)))
     run_batch(ctx, data_edits(ctx.rng, ctx.n(400, 5000)))
+    run_batch(ctx, coef_missing(ctx.rng, ctx.n(150, 2000)))
     if thorough:
         # long chains declared back to front / shuffled: the iteration budget must cover n(n+1)/2
         big = []
